@@ -85,7 +85,7 @@ theorem resolveVL_state (a : VarOrLevel) (m : Mgr) : (resolveVL a m).2 = m := by
 
 /-- normal form of `swap … all_levels` with a dict given: an argument error of the public entry
 point (the same for the threaded version, whatever the dict), or the body on two adjacent levels -/
-theorem swap_given_cases (xa ya : VarOrLevel) (m : Mgr) :
+theorem swap_given_normal_form (xa ya : VarOrLevel) (m : Mgr) :
     (∃ e, swap xa ya true m = (.error e, m) ∧ ∀ al, swapL xa ya (some al) m = (.error e, m)) ∨
     (∃ x, x + 1 < m.nvars ∧ swap xa ya true m = swapBody x (x + 1) m ∧
       ∀ al, swapL xa ya (some al) m = swapBodyL al x (x + 1) m) := by
@@ -138,7 +138,7 @@ theorem swap_given_cases (xa ya : VarOrLevel) (m : Mgr) :
 theorem swapL_some_sim (ext : Nat → Nat) (m : Mgr) (h : ReorderInv ext m) (xa ya : VarOrLevel)
     (al : LevelSets) (hal : LevelsOK al m) :
     SimL ext (swapL xa ya (some al) m) (swap xa ya true m) := by
-  rcases swap_given_cases xa ya m with ⟨e, h1, h2⟩ | ⟨x, hx, h1, h2⟩
+  rcases swap_given_normal_form xa ya m with ⟨e, h1, h2⟩ | ⟨x, hx, h1, h2⟩
   · rw [h1, h2 al]; exact rfl
   · rw [h1, h2 al]; exact swapBodyL_sim ext m h x hx al hal
 
